@@ -942,8 +942,35 @@ def _digests_before(ctx: Ctx, cer: gw.Ceremony) -> Digests:
     return direct
 
 
+def _scribble(ctx: Ctx, view: PsbtView) -> None:
+    """A caller writes into what the view handed out (`tx`, `prevouts`, an input map): all of them are documented as
+    copies, so nothing the view answers afterwards may change. Frozen objects refuse the write; that is fine too."""
+    ch = ctx.ch
+    try:
+        tx, prevouts = view.tx, view.prevouts
+        psbt_in = view.input(ch.draw(view.input_count, "scribble.input"))
+    except (*LIB, OSError):
+        return  # a file fault: the digests below say what the view does under it
+    ctx.fault("caller-writes-into-view-copies")
+    edits: list[Any] = [
+        lambda: setattr(tx, "lock_time", tx.lock_time ^ 1), lambda: setattr(tx, "version", tx.version + 1),
+        lambda: [setattr(i, "sequence", i.sequence ^ 0x00400001) for i in tx.vin], lambda: [setattr(i, "script_sig", b"\x51") for i in tx.vin],
+        lambda: tx.vin.reverse(), lambda: tx.vout.pop() if len(tx.vout) > 1 else None, lambda: [setattr(o, "value", 0) for o in tx.vout],
+        lambda: setattr(tx.vin[0], "prev_out", OutPoint(b"\x99" * 32, 7)), lambda: prevouts.reverse(), lambda: [setattr(o, "value", 1) for o in prevouts],
+        lambda: [setattr(o, "script_pub_key", b"\x51") for o in prevouts], lambda: setattr(psbt_in, "sig_hash_type", 0x83), lambda: setattr(psbt_in, "witness_utxo", None),
+        lambda: setattr(psbt_in, "sequence", 0), lambda: psbt_in.unknown.update({b"\xfc": b"x"}),
+    ]
+    for n in ch.shuffled(range(len(edits)), "scribble.which")[: 2 + ch.draw(5, "scribble.n")]:
+        try:
+            edits[n]()
+        except (AttributeError, TypeError, *LIB):  # frozen dataclass, validated setter
+            ctx.probe("scribble-refused")
+
+
 def _view_digests(ctx: Ctx, view: PsbtView, cer: gw.Ceremony, direct: Digests, strict: bool, who: str) -> None:
     """Every digest through a streamed view: equal to the direct one; under a file fault it may refuse instead."""
+    if ctx.ch.draw(3, "view.scribble?") == 0:
+        _scribble(ctx, view)
     for (i, lh, explicit), want in sorted(direct.items(), key=lambda kv: (kv[0][0], kv[0][1], kv[0][2] or 0)):
         kw = {} if explicit is None else {"hash_type": explicit}
         try:
